@@ -1126,6 +1126,12 @@ fn odd_log_paths(tag: &str) -> Vec<std::path::PathBuf> {
         // component that is a symbolic link: set up by run_with_log_at
         std::path::PathBuf::from(t("linkfile.csv")),
         std::path::PathBuf::from(t("linkdir")).join("heap.csv"),
+        // names other tools give a special meaning: a lone dash, a dash in a directory, device-like and option-like names
+        std::path::PathBuf::from("-"),
+        std::path::PathBuf::from(t("dir")).join("-"),
+        std::path::PathBuf::from(t("stdout")),
+        std::path::PathBuf::from("CON"),
+        std::path::PathBuf::from(t("--heap-size")),
     ]
 }
 
@@ -1693,6 +1699,91 @@ pub fn c11(ctx: &Ctx, rep: &mut Report) {
             }
         } else if let Some(c) = well_behaved_case(&mut rng, i) {
             sources.push((c.origin, c.ast, c.src));
+        }
+    }
+    // bytecode that did not come from the compiler: the hand-assembled programs of C05 and three files in which two
+    // different string constants carry the same label text (the loader accepts them; which definition a jump reaches
+    // must not depend on the process). Executed five times here (every HashMap gets a fresh seed), digested for the
+    // comparison across processes and builds.
+    if ctx.shard == 4 % ctx.nshards {
+        use super::super::bcfmt::{self, Const, Ins, Prog};
+        let s = |t: &str| Const::Str(t.to_owned());
+        let mut files: Vec<(String, Vec<u8>)> = super::vm::special_programs().into_iter().map(|(n, p, _, _)| (n.to_string(), bcfmt::write(&p))).collect();
+        for (k, order) in [[1u16, 2], [2, 1], [1, 1]].iter().enumerate() {
+            let dup = Prog {
+                consts: vec![
+                    s("main"),
+                    s("L"),
+                    s("L"),
+                    s("A"),
+                    s("B"),
+                    s("end"),
+                    s("M"),
+                    s("M"),
+                    Const::Method {
+                        name: 0,
+                        arity: 0,
+                        locals: 0,
+                        code: vec![
+                            Ins::Goto(order[0]),
+                            Ins::Label(1),
+                            Ins::Print(3, 0),
+                            Ins::Drop,
+                            Ins::Goto(5),
+                            Ins::Label(order[1].max(2)),
+                            Ins::Print(4, 0),
+                            Ins::Drop,
+                            Ins::Goto(7),
+                            Ins::Label(6),
+                            Ins::Print(3, 0),
+                            Ins::Drop,
+                            Ins::Label(7),
+                            Ins::Print(4, 0),
+                            Ins::Drop,
+                            Ins::Label(5),
+                            Ins::Print(3, 0),
+                        ],
+                    },
+                ],
+                globals: vec![],
+                entry: 8,
+            };
+            files.push((format!("duplicate-label-text-{}", k), bcfmt::write(&dup)));
+        }
+        for (name, bytes) in files.iter() {
+            rep.evaluations += 1;
+            let mut first: Option<(bool, String, bool)> = None;
+            let mut stable = true;
+            for _ in 0..5 {
+                let this = match real::load(bytes) {
+                    Ok(p) => {
+                        let r = real::run_stepped(&p, 100_000);
+                        (r.ok, r.out, r.capped)
+                    }
+                    Err(_) => (false, "<refused by the loader>".to_string(), false),
+                };
+                match &first {
+                    None => first = Some(this),
+                    Some(f) => {
+                        if *f != this {
+                            stable = false;
+                            rep.violation(
+                                "C11:bytecode-output-varies-in-process",
+                                format!("{}: the same bytecode file ends differently when executed again in the same process: ok={} out={:?} vs ok={} out={:?}", name, f.0, cli::truncate(&f.1, 80), this.0, cli::truncate(&this.1, 80)),
+                                json!({"check":"C11","bytecode_b64": super::super::b64(bytes), "name": name}),
+                            );
+                            break;
+                        }
+                    }
+                }
+            }
+            if stable {
+                rep.conclusive += 1;
+                rep.bump("c11-source", "hand-assembled bytecode");
+                if let Some((ok, out, _)) = &first {
+                    rep.digests.push(format!("bytecode:{} => {:016x}:{}", name, hash_str(out), ok));
+                }
+            }
         }
     }
     let dir = ctx.scratch("c11");
